@@ -162,6 +162,8 @@ type env struct {
 	calls *calls
 	fx    fixture
 	case0 string
+	// the next request carries the headers of a websocket upgrade
+	upgrade bool
 }
 
 func isAPI(path string) bool { return path == prefix || strings.HasPrefix(path, prefix+"/") }
@@ -375,7 +377,8 @@ func (e *env) fill(rt gin.RouteInfo, v int) filling {
 		case "ancestorhash":
 			return []string{fx.anc, fx.genesis, fx.unknownHash}[v], []string{"<ancestor>", "<genesis>", "<unknown>"}[v]
 		case "token":
-			return []string{fx.victim, fx.victim, fx.unknownTok}[v], []string{"<issued>", "<issued>", "<unknown>"}[v]
+			// (the second variant names the caller's own user token: revoking oneself needs the admin token too)
+			return []string{fx.victim, fx.user, fx.unknownTok}[v], []string{"<issued>", "<the user token itself>", "<unknown>"}[v]
 		}
 		x := []string{"1", "x", "zzz"}[v]
 		return x, x
@@ -574,6 +577,12 @@ func (e *env) do(method, target string, body []byte, c cred) *httptest.ResponseR
 	}
 	if body != nil {
 		req.Header.Set("Content-Type", "application/json")
+	}
+	if e.upgrade {
+		req.Header.Set("Connection", "Upgrade")
+		req.Header.Set("Upgrade", "websocket")
+		req.Header.Set("Sec-WebSocket-Version", "13")
+		req.Header.Set("Sec-WebSocket-Key", "dGhlIHNhbXBsZSBub25jZQ==")
 	}
 	w := httptest.NewRecorder()
 	e.st.Engine.ServeHTTP(w, req)
@@ -939,6 +948,18 @@ func (e *env) runPoint() {
 						continue
 					}
 					e.probe(rt, fs[fi], cs[ci])
+					if class == clNone || class == clUnknown || class == clRevoked {
+						// the same request dressed up as a websocket upgrade: still an API request
+						fs, cs = e.fillings(rt), e.creds(class)
+						if fi < len(fs) && ci < len(cs) {
+							e.upgrade = true
+							c := cs[ci]
+							c.shape += " + Connection: Upgrade, Upgrade: websocket"
+							e.probe(rt, fs[fi], c)
+							e.upgrade = false
+							r.Count("requests_dressed_as_websocket_upgrade", 1)
+						}
+					}
 				}
 			}
 		}
